@@ -11,9 +11,7 @@ git -C $W apply /verif/seeded/$ID/patch.diff || { echo "patch does not apply"; e
 cd /verif
 for s in $SEEDS; do
   # evidence of mutant runs must not overwrite real evidence
-  cp evidence/$P.json /tmp/mv/ev-$P-$$.json 2>/dev/null
-  VERIF_REPO=$W VERIF_SEED=$s VERIF_TIER=${TIER:-quick} ./vcheck $P > /tmp/mv/out-$ID-$P-$s.log 2>&1; rc=$?
-  cp /tmp/mv/ev-$P-$$.json evidence/$P.json 2>/dev/null
+  VERIF_EVIDENCE_DIR=/tmp/mv/ev-$ID VERIF_REPO=$W VERIF_SEED=$s VERIF_TIER=${TIER:-quick} ./vcheck $P > /tmp/mv/out-$ID-$P-$s.log 2>&1; rc=$?
   echo "mutant=$ID check=$P seed=$s exit=$rc $(grep -c '^VIOLATION' /tmp/mv/out-$ID-$P-$s.log) violation line(s)"
   grep -A2 '^VIOLATION' /tmp/mv/out-$ID-$P-$s.log | grep 'signature\|what' | head -4
   tail -1 /tmp/mv/out-$ID-$P-$s.log
